@@ -86,7 +86,7 @@ def s_type_table(vc):
     if not out.ok:
         return
     member = Or(*[t == x for x in NAME_BEARING])
-    vc.ensure_kf("true_only_for_name_bearing_types", Implies(vc.eq(out.result, True), member), "KF-C26-1", Or(t == 13, t == 16))
+    vc.ensure("true_only_for_name_bearing_types", Implies(vc.eq(out.result, True), member))  # TXT/HINFO were KF-C26-1, fixed in c43b4c657
     vc.ensure("true_for_every_name_bearing_type", Implies(member, vc.eq(out.result, True)))
     vc.ensure("is_bool", isa(out.result, bool))
 
@@ -221,8 +221,7 @@ def s_decompress_two(vc):
     if vc.branch(c2["fails"]):
         return
     n1, n2 = c1["name"], c2["name"]
-    K = len_(n1) + 2 != len_(packname(vc, n1))
-    vc.ensure_kf("both_pointers_replaced", out.result == packname(vc, n1) + packname(vc, n2) + as_bytes(post), "KF-C26-2", K)
+    vc.ensure("both_pointers_replaced", out.result == packname(vc, n1) + packname(vc, n2) + as_bytes(post))  # was KF-C26-2, fixed in b4aa97775
 
 
 # =============================================================================================
